@@ -350,6 +350,31 @@ func runC18(c *Ctx, r *Report, tier string) {
 		t := c.term(in.(*ssa.Call).Call.Args[2])
 		r.Check(strings.HasPrefix(t, "(len(parseState.args(") && strings.HasSuffix(t, ")) - 1)"), "TOKENS", cpn, "positionals skipped for the words already typed", c.ipos(in), "skipPositional(s, len(s.args)-1): the last word is the one being completed", "skips "+trunc(t, 80)+" positionals: the partial last word is counted as typed")
 	}
+	// … and exactly that many are dropped from the queue, at once: the queue is re-sliced from the count (or
+	// emptied when the count reaches its length), not shortened step by step against a moving bound
+	if sp := c.Fn("(*completion).skipPositional"); sp != nil {
+		posF := c.mustField(r, "parseState", "positional")
+		nSp := 0
+		for _, st := range c.storesTo(posF) {
+			if !c.actsFor(st.Fn, sp) {
+				continue
+			}
+			nSp++
+			t := c.term(st.Store.Val)
+			inLoop := innermost(loopsOf(st.Fn), st.Store.Block()) != nil
+			switch {
+			case isConstNil(c.resolve(st.Store.Val)):
+				r.Check(!inLoop, "TOKENS", c.fname(sp), "queue emptied when the count covers it", c.ipos(st.Store), "positional = nil, outside any loop", "the queue is emptied inside a loop")
+			case strings.HasPrefix(t, "slice(parseState.positional(P1), ") && strings.HasSuffix(t, ", _)"):
+				lo := strings.TrimSuffix(strings.TrimPrefix(t, "slice(parseState.positional(P1), "), ", _)")
+				_, isNum := constIntTerm(lo)
+				r.Check(!inLoop && !isNum && !strings.Contains(lo, "phi"), "TOKENS", c.fname(sp), "queue re-sliced from the count", c.ipos(st.Store), "positional = positional[n:], outside any loop", "the queue is shortened by "+trunc(lo, 40)+" (in a loop: "+fmt.Sprint(inLoop)+"): the number dropped is not the number of words typed")
+			default:
+				r.Fail("TOKENS", c.fname(sp), "queue update", c.ipos(st.Store), "positional = "+trunc(t, 80))
+			}
+		}
+		r.Check(nSp >= 1, "TOKENS", c.fname(sp), "queue updates found", c.pos(sp.Pos()), "≥ 1", fmt.Sprintf("%d", nSp))
+	}
 	// value completion asks the value itself first, whether or not it is addressable
 	if cvf := c.Fn("(*completion).completeValue"); cvf != nil {
 		for _, b := range c.blocks(cvf) {
